@@ -65,7 +65,7 @@ def simple(names_plain, names_text, functions, bounds, technique, assumptions, t
 
 C09_PLAIN = ["c09_message_type_leaf"] + ["c09_own_t%02d" % t for t in (1, 4, 6, 7, 8, 9, 10, 11, 13, 15, 16, 17, 18, 20, 27)]
 C09_TEXT = ["c09_own_t%02d" % t for t in (5, 12, 14, 19, 21, 24)]
-C11_PLAIN = ["c10_leaf_lon", "c10_leaf_lat", "c10_leaf_sog_cog", "c11_t01", "c11_t04", "c11_t11", "c11_t09", "c11_t15", "c10_t17", "c11_t18", "c11_t27"]
+C11_PLAIN = ["c10_leaf_lon", "c10_leaf_lat", "c10_leaf_sog_cog", "c11_t01", "c11_t04", "c11_t11", "c11_t09", "c11_t15", "c11_t15_88", "c11_t15_110", "c10_t17", "c11_t18", "c11_t27"]
 C11_TEXT = ["c11_t05", "c11_t19", "c11_t21"]
 C12_PLAIN = ["c12_leaf_small", "c12_leaf_shiptype", "c12_t01", "c12_t04", "c12_t11", "c12_t09", "c12_t18", "c12_t27"]
 C12_TEXT = ["c12_t05", "c12_t19", "c12_t21", "c12_t24"]
@@ -145,10 +145,10 @@ def c15(res, tier, seed):
     jobs = []
     for h in C15_SMALL:
         jobs += K(h, ("std", "none") if tier == "quick" else ALL, timeout=900)
-    for h in (["c15_t06_p119", "c15_t06_p120", "c15_t08_p063"] if tier == "quick" else C15_LARGE):
+    for h in (["c15_t06_p119", "c15_t06_p120", "c15_t08_p063", "c15_t08_p119", "c15_t08_p120", "c15_t17_p087", "c15_t17_p120"] if tier == "quick" else C15_LARGE):
         jobs += K(h, ("std", "none") if tier == "quick" else ALL, timeout=2700)
     run_kani_jobs(res, jobs)
-    res.assumptions += ["data length concrete per harness: 0,1,2,3,8,9 (+63,119,120 quick; +64,87,115 thorough) bytes; other lengths outside the claim",
+    res.assumptions += ["data length concrete per harness: 0,1,2,3,8,9, 63 (type 8), 87 (type 17 maximum), 119 and 120 (types 6 and 8; 120 also type 17) - thorough adds 64 and 115; other lengths outside the claim",
                         "header and data contents fully symbolic"]
     return {"functions_encoded": ["BinaryAddressedMessage::parse", "BinaryBroadcastMessage::parse", "DgnssBroadcastBinaryMessage::parse",
                                   "Vec<u8>::from(&[u8]) / heapless::Vec::try_from"],
@@ -272,14 +272,29 @@ def c18(res, tier, seed):
                 msq.q_cfg_miter(res, rels["std"], rels[c], ql)
     if "none" in rels:
         r, m, st = msq.q_capacity(res, rels["none"], ql)
-        if r == "sat":
-            res.norepro.append("capacity-overflow[none]: over-capacity continuation not rejected / leaves a trace in the encoding (see C17 for the replayable history)")
-        elif r != "unsat":
-            # constructing > 384 payload bytes is slow for the sequence solver: decide on the capacity-scaled relation
+        if r != "unsat":
+            # constructing > 384 payload bytes is slow for the sequence solver: decide on the capacity-scaled relation,
+            # and look for a replayable history (rejected over-capacity fragment that leaves a trace = silent truncation later)
             w = msq.witness_relation(rels["none"])
             r2, m2, st2 = msq.q_capacity_scaled(res, w, ql)
             if r2 != "unsat":
-                res.inconclusive.append("capacity-overflow[none]: %s / scaled %s" % (r, r2))
+                before = len(res.violations)
+                msq.q_no_trace(res, rels["none"], ql, k_bmc=3 if tier == "quick" else 4)
+                if len(res.violations) == before:
+                    res.inconclusive.append("capacity-overflow[none]: %s / scaled %s, no replayable history found" % (r, r2))
+    # (iii) text layer: the sentence parsers of the three builds on one symbolic line
+    try:
+        import mt
+        N = MT_N[tier]
+        base = {c: msq.relation(c) for c in ALL if c in rels}
+        if "std" in base:
+            ta = mt.build("std", N, mir_path=base["std"].mir_path)
+            for c in ("alloc", "none"):
+                if c in base:
+                    tb = mt.build(c, N, mir_path=base[c].mir_path, line=ta.line)
+                    mt.q_cfg_miter(res, ta, tb)
+    except Exception as e:
+        res.inconclusive.append("text-layer miter could not be built: %s" % str(e)[:300])
     res.assumptions += ["equivalence = every K harness listed runs against the same configuration-independent oracle in std, alloc and no-alloc (agreement by transitivity inside the bounds) "
                         "+ engine M miters of the fragment state machine's transition relation, configuration against configuration",
                         "error category = Nmea vs Checksum (+ decode / form / sequencing origin); message texts differ by design and are not compared",
